@@ -76,6 +76,14 @@ Theorem c05_activation_pending_or_taken : forall k c tc po pd lp np ff g ls t i,
 Proof. exact ev_bitset_my_activation. Qed.
 Print Assumptions c05_activation_pending_or_taken.
 
+(* a thread cannot move only when it is finished or inside blocking_wait on an empty trigger:
+   try_wait / timed_wait calls always run to their Drain (so, with c05_merge_not_drop, polling and
+   bounded timed waits never lose an event, they only delay it), every notify runs to completion *)
+Theorem c05_blocked_only_in_blocking_wait : forall t g l,
+  step t g l = None -> (at_pc l = PIdle /\ prog l = []) \/ (at_pc l = LWait WBlock /\ trig g = 0).
+Proof. exact ev_blocked_only_in_blocking_wait. Qed.
+Print Assumptions c05_blocked_only_in_blocking_wait.
+
 (* ---- no lost wake-up ---- *)
 (* the full clause: whenever the listener sleeps (blocking wait, empty trigger), no returned
    notification is undelivered.  FALSE of the faithful model and of the implementation: *)
@@ -127,6 +135,29 @@ Theorem c05_lost_wakeup_only_in_bad_window : forall k c tc po pd lp np ff cf i,
   0 < c -> reachable step (init k c tc po pd lp np ff) cf -> asleep cf -> undelivered (fst cf) i -> bad_window cf.
 Proof. exact ev_lost_wakeup_only_in_bad_window. Qed.
 Print Assumptions c05_lost_wakeup_only_in_bad_window.
+
+(* the bad window is ENTERED in exactly one way: a notifier's late Pending -> Notified CAS
+   (second CAS of Handle::notify) while the listener already sleeps on the empty trigger, i.e. the
+   token that notifier posted has been consumed by the listener's empty_buffer in the meantime *)
+Theorem c05_bad_window_entry : forall k c tc po pd lp np ff cf t cf' es,
+  0 < c -> reachable step (init k c tc po pd lp np ff) cf ->
+  step1 step t cf = Some (cf', es) -> ~ bad_window cf -> bad_window cf' ->
+  asleep cf /\ st (fst cf) = Pending /\ t <> O /\ exists i, at_pc (snd cf t) = NCasPN i.
+Proof. exact ev_bad_window_entry. Qed.
+Print Assumptions c05_bad_window_entry.
+
+(* non-vacuity: step 12 of the witness schedule is such an entry *)
+Example c05_bad_window_entry_nonvacuous :
+  let c11 := fst (run step (firstn 11 f17_sched) f17_init) in
+  reachable step f17_init c11 /\ ~ bad_window c11 /\ asleep c11 /\ at_pc (snd c11 1%nat) = NCasPN 0 /\
+  match step1 step 1 c11 with Some (c12, _) => bad_window c12 | None => False end.
+Proof.
+  cbv zeta. split; [exists (firstn 11 f17_sched); reflexivity|].
+  split; [intros [_ H]; vm_compute in H; discriminate|].
+  split; [split; vm_compute; reflexivity|]. split; [vm_compute; reflexivity|].
+  vm_compute. repeat split; reflexivity.
+Qed.
+Print Assumptions c05_bad_window_entry_nonvacuous.
 
 (* the partial clause: excluding exactly the known class, the full statement holds *)
 Theorem c05_no_lost_wakeup_partial : forall k c tc po pd lp np ff cf,
